@@ -28,7 +28,10 @@ def payloads(tier):
     small += [dict(n=3, size=6, container='cli-meta', compression=None, mode='cli', kill='exit', with_meta=True)]      # ids (-i) and metadata (-m) given
     big = [dict(n=4, size=300000, container=c, compression=comp) for c in ('array', 'annotated-list') for comp in (None, 'gzip')]
     big += [dict(n=3, size=300000, container='list', compression=None, preexisting=True)]
+    # a payload beyond 2^26 bytes (sizes at which writers start to pre-allocate / switch strategy), written signature by signature
+    big += [dict(n=5, size=1_800_000, container='annotated-list', compression=None)]
     if tier == 'thorough':
+        big += [dict(n=3, size=3_000_000, container='list', compression=None), dict(n=9, size=1_000_000, container='array', compression=None)]
         small += [dict(n=n, size=12, container=c, compression=comp, preexisting=pre)
                   for n in (1, 3, 5) for c in ('array', 'list', 'annotated-array', 'annotated-list') for comp in (None, 'gzip', 'lzf') for pre in (False, True)]
         small += [dict(n=6, size=25, container=c, compression='lzf') for c in ('array', 'list')]
@@ -162,7 +165,7 @@ def run(ctx):
         ctx.rule_parts.append('[writer-trace] storage-call sequences of real dump_signatures runs (both write paths, 1-6 signatures, with/without compression, onto a fresh path and onto a path already holding another signature file, '
                               'compression, empty signatures) replayed through the SigStore library model; [crash-injection] a writer subprocess '
                               'killed with os._exit immediately before each of its storage calls (every crash point for small payloads; every third '
-                              'plus the last eight for multi-megabyte payloads in quick), the leftover file loaded with load_signatures; '
+                              'plus the last eight for multi-megabyte payloads in quick; one payload of 72 MB, beyond 2^26 bytes), the leftover file loaded with load_signatures; '
                               'non-trivial = a crash strictly inside the write')
         ctx.exhaustive_all = ctx.tier == 'thorough'
     finally:
